@@ -125,6 +125,7 @@ def install_hook() -> None:
 
 # ------------------------------------------------------------------ sandbox
 
+DEFAULT_CMAP_PATH = "/usr/share/pdfminer/"        # the documented default of CMAP_PATH
 DECOY_PICKLE = {"IS_VERTICAL": False, "CODE2CID": {}, "CID2UNICHR_H": {}, "CID2UNICHR_V": {}}
 
 
@@ -143,7 +144,9 @@ class Sandbox:
         self.victim_top = os.path.join(self.root, "victim")
         self.rsrc = os.path.join(self.root, "rsrc")
         self.decoy = os.path.join(self.root, "decoy")
-        for d in (self.out, self.victim, self.victim_top, self.rsrc, self.decoy, os.path.join(self.rsrc, "to-unicode-x"),
+        # round 6: the process's working directory while a document is processed (holds decoy <name>.pickle.gz files)
+        self.cwd = os.path.join(self.root, "cwd")
+        for d in (self.cwd, self.out, self.victim, self.victim_top, self.rsrc, self.decoy, os.path.join(self.rsrc, "to-unicode-x"),
                   os.path.join(self.rsrc, "sub")):
             os.makedirs(d)
         blob = gzip.compress(pickle.dumps(DECOY_PICKLE))
@@ -263,7 +266,21 @@ def nontrivial_name(s: str) -> bool:
     return "/" in s or ".." in s or "\x00" in s
 
 
+PLAIN_CMAP_NAMES = ["good", "Evil", "H", "UniJIS-UCS2-H", "Acme", "x.y", "evil", "90ms-RKSJ-H", "nope"]
+
+
 def gen_case(rng) -> Dict[str, Any]:
+    case = _gen_case(rng)
+    # round 6: the environment the library runs in, and plain names (no path-like character at all)
+    case["cmap_env"] = rng.choice(["dir", "dir", "unset", "unset", "empty"])
+    if rng.random() < 0.35:
+        for k in ("enc", "usecmap", "registry"):
+            if case.get(k) is not None and rng.random() < 0.6:
+                case[k] = rng.choice(PLAIN_CMAP_NAMES)
+    return case
+
+
+def _gen_case(rng) -> Dict[str, Any]:
     names = hostile_names(rng)
     flow = rng.choice(["encoding-name", "encoding-stream", "usecmap", "registry"])
     case: Dict[str, Any] = {
@@ -390,6 +407,7 @@ def run_impl(case: Dict[str, Any]):
     logging.getLogger("pdfminer").setLevel(logging.ERROR)      # damaged images are reported with warnings: not our output
     sb = Sandbox(case.get("pre", []))
     old_env = os.environ.get("CMAP_PATH")
+    old_cwd = os.getcwd()
     try:
         # safety net of the harness itself: even the UNREPAIRED code must not be able to write outside the sandbox
         case = dict(case)
@@ -400,7 +418,24 @@ def run_impl(case: Dict[str, Any]):
         pdf = build_pdf(case, sb)
         CMapDB._cmap_cache.clear()
         CMapDB._umap_cache.clear()
-        os.environ["CMAP_PATH"] = sb.rsrc
+        # round 6: CMAP_PATH set to a directory / not set / set to the empty string; the working directory is a scratch
+        # directory that holds a loadable <name>.pickle.gz for every plain CMap name this document asks for
+        cmap_env = case.get("cmap_env", "dir")
+        if cmap_env == "dir":
+            os.environ["CMAP_PATH"] = sb.rsrc
+        elif cmap_env == "empty":
+            os.environ["CMAP_PATH"] = ""
+        else:
+            os.environ.pop("CMAP_PATH", None)
+        blob = gzip.compress(pickle.dumps(DECOY_PICKLE))
+        for n in predict_loads(case, sb.root):
+            if n and "/" not in n and "\x00" not in n and len(n.encode("utf-8", "surrogateescape")) < 200:
+                try:
+                    with open(os.path.join(sb.cwd, n + ".pickle.gz"), "wb") as fp:
+                        fp.write(blob)
+                except (OSError, UnicodeError):
+                    pass
+        os.chdir(sb.cwd)
         before = sb.snapshot()
         out = io.BytesIO()
         exc = None
@@ -477,8 +512,10 @@ def run_impl(case: Dict[str, Any]):
             else:
                 other.append((ev, args[:2]))
         return {"rewritten": rewritten, "excs": excs, "stats": stats, "inpath": inpath, "respath": respath, "opens": opens, "other": other, "created": created, "changed": changed, "removed": removed, "exc": exc,
-                "root": sb.root, "out": sb.out, "rsrc": sb.rsrc, "after": after, "pdf_len": len(pdf)}
+                "root": sb.root, "out": sb.out, "rsrc": sb.rsrc, "after": after, "pdf_len": len(pdf), "cwd": sb.cwd,
+                "cmap_env": cmap_env}
     finally:
+        os.chdir(old_cwd)
         if old_env is None:
             os.environ.pop("CMAP_PATH", None)
         else:
@@ -509,9 +546,13 @@ def is_import_noise(p: str) -> bool:
 
 def judge(case: Dict[str, Any], r: Dict[str, Any]) -> Optional[Tuple[str, Any, Any, Dict[str, Any]]]:
     """The property on the implementation."""
-    root, out, rsrc = r["root"], r["out"], r["rsrc"]
+    root, out = r["root"], r["out"]
     cdir = cmap_dir()
-    tags = {"flow": case["flow"], "exc": r["exc"]}
+    # the resource directories: <package>/cmap and the directory CMAP_PATH names - the documented default
+    # /usr/share/pdfminer/ when it is not set; set to the empty string the user names the working directory
+    env = r.get("cmap_env", "dir")
+    rsrc = {"dir": r["rsrc"], "unset": os.path.normpath(DEFAULT_CMAP_PATH), "empty": r.get("cwd")}[env]
+    tags = {"flow": case["flow"], "exc": r["exc"], "cmap_env": env}
     for p, mode in r["opens"]:
         if is_import_noise(p):
             continue
@@ -626,16 +667,19 @@ def check_case(ctx: C.Ctx, case: Dict[str, Any], lines, impl, inputs, shrink: bo
         ctx.fail(C.Failure(v[0], {"mode": "doc", "case": case}, v[1], v[2], v[3]))
     # ---- tie: CMap probes ----
     cdir = cmap_dir()
-    dirs = [r["rsrc"], cdir]
+    env = r.get("cmap_env", "dir")
+    env_wire = {"dir": hexs(r["rsrc"]), "unset": "none", "empty": "-"}[env]
+    ctx.branch("cmap-env:" + env)
     exp_opens: List[str] = []
     loads = predict_loads(case, root) * max(1, int(case.get("repeat", 1)))     # every document loads its CMaps again
     probe_lines = []
     for n in loads:
-        probe_lines.append("cmap %s,%s %s" % (hexs(dirs[0]), hexs(dirs[1]), hexs(n)))
+        # the model derives the directory list from the environment value and the package directory (default regenerated)
+        probe_lines.append("cmapenv %s %s %s" % (env_wire, hexs(os.path.dirname(cdir)), hexs(n)))
     obs = [p for p, mode in r["opens"] if p.endswith(".pickle.gz")]
     inputs.append(("cmap-opens", {"case": case, "loads": [n.replace(root, "{ROOT}") for n in loads]}))
     lines.append(("probes", probe_lines, loads, root, r["after"],
-                  [p for p in r["stats"] if p.endswith(".pickle.gz")]))
+                  [p for p in r["stats"] if p.endswith(".pickle.gz")], r.get("cwd")))
     impl.append([p for p in obs])
     # ---- tie: image names ----
     existing = list(case.get("pre", []))
@@ -688,7 +732,7 @@ def resolve_ties(ctx: C.Ctx, lines, impl, inputs) -> None:
     img_index: List[Tuple[int, int]] = []
     for idx, item in enumerate(lines):
         if item[0] == "probes":
-            _, plines, loads, root, after, obs_stats = item
+            _, plines, loads, root, after, obs_stats, cwd = item
             predicted: List[str] = []
             exp_stats: List[str] = []
             loaded = set()          # CMapDB caches a CMap by name once it has been loaded successfully
@@ -700,6 +744,8 @@ def resolve_ties(ctx: C.Ctx, lines, impl, inputs) -> None:
                 probes = [] if reply == "-" else [bytes.fromhex(x).decode("utf-8", "surrogateescape") for x in reply.split(",")]
                 # the first probe that exists (in the sandbox snapshot or on the real cmap dir) is opened
                 for p in probes:
+                    if not os.path.isabs(p) and cwd:
+                        p = os.path.join(cwd, p)         # CMAP_PATH set to "": relative to the working directory
                     q = os.path.normpath(p)
                     exp_stats.append(q)
                     if q in after or os.path.exists(q):
@@ -1083,6 +1129,16 @@ def run(ctx: C.Ctx) -> None:
                     "ordering": "Z" if flow == "registry" else "Identity", "basefont": "Helv", "images": [], "pre": [],
                     "output_type": "text"}
             check_case(ctx, case, lines, impl, inputs)
+    # round 6: plain CMap names through every flow with CMAP_PATH set to a directory / not set / empty, the working
+    # directory holding a loadable file of that name
+    for env in ("dir", "unset", "empty"):
+        for flow in ("encoding-name", "encoding-stream", "usecmap", "registry"):
+            for nm in ("Evil", "good"):
+                case = {"flow": flow, "enc": nm if flow.startswith("encoding") else "Identity-H",
+                        "usecmap": nm if flow == "usecmap" else None, "registry": nm if flow == "registry" else "Adobe",
+                        "ordering": "Z" if flow == "registry" else "Identity", "basefont": "Helv", "images": [], "pre": [],
+                        "output_type": "text", "cmap_env": env}
+                check_case(ctx, case, lines, impl, inputs)
     for nm in IMAGE_NAMES:
         case = {"flow": "image", "enc": "Identity-H", "usecmap": None, "registry": "Adobe", "ordering": "Identity",
                 "basefont": "Helv", "images": [nm, nm], "pre": ["Im0.bmp", "keep.bmp"], "output_type": "text"}
